@@ -38,10 +38,15 @@ __CPROVER_ensures(next_id == xv_id_shadow)
  * ctx_store.c.  The cache is a heap list; every job of this part explores lists of at most XV_CS_MAX (2) entries at
  * acquire (3 at release) and is therefore marked `bounded:`.  use_cnt arithmetic is unbounded (1..INT_MAX-1).
  *
- * The helper contracts below are ENFORCED in their own jobs (the harness lets the lock model build the list: CBMC can
- * not follow a pointer that a requires clause merely constrains to equal another one, as le_prev would be, so the
- * list is built by assignments) and REPLACE the helpers in the jobs of ctx_store_get_ctx / ctx_store_put, where their
- * requires clauses -- lock held, list well formed -- become obligations at each call site. */
+ * The helper contracts below (cache_get, cache_find_entry, cache_install, cache_put) are ENFORCED in their own jobs; each
+ * REQUIRES the lock (xv_lk_held) and the invariant of the list.  The harness lets the lock model build the list by
+ * assignments: CBMC cannot follow a pointer that a requires clause merely constrains to equal another one, as le_prev
+ * would be.  For the same reason these contracts cannot REPLACE the helpers inside ctx_store_get_ctx / ctx_store_put (the
+ * entry pointer they return is dereferenced by the caller): there the real helper bodies are inlined, and "the lock is
+ * held at every helper entry" follows from what those two jobs prove -- the lock is acquired exactly once and released
+ * exactly once (xv_lk_acq/xv_lk_rel +1, not held at exit on every path), every helper call lies between the two (the
+ * release stub makes the list unusable afterwards: head, links and use counts become arbitrary pointers/values, so any
+ * helper run after the release would fail the pointer checks or the snapshot postconditions). */
 #define CE_SZ sizeof(struct cache_entry)
 #define L0(C) ((C)->entries.lh_first)
 #define L1(C) (L0(C)->elem.le_next)
@@ -193,8 +198,13 @@ __CPROVER_ensures(((xv_acq.ctx[0] == ssl_ctx && xv_acq.cnt[0] == 1) || (xv_acq.c
 #define XV_LSC_S(p) (__CPROVER_is_fresh((p), XV_LSC_STR) && (p)[XV_LSC_STR - 1] == 0)
 #define XV_LSC_STRINGS (XV_LSC_S(cert_data) && XV_LSC_S(key_data) && (tc_data == NULL || XV_LSC_S(tc_data)) && (crl_data == NULL || XV_LSC_S(crl_data)))
 #define XV_LSC_GHOST_OK (XV_LIVE_OK(xv_x509_live) && XV_LIVE_OK(xv_crl_live) && XV_LIVE_OK(xv_pkey_live) && XV_LIVE_OK(xv_bio_live))
-#define XV_LSC_ASSIGNS xv_OS
-#define XV_LSC_ENSURES __CPROVER_ensures(1)
+#define XV_LSC_ASSIGNS xv_OS, xv_SNP
+/* C08: whatever the outcome, every X509, X509_CRL, EVP_PKEY and BIO obtained on the way has been given back;
+ * C18/C09: a context is returned only with a certificate and a key installed and the key checked against the certificate,
+ * with at least one trusted certificate / CRL added when such data was given */
+#define XV_LSC_ENSURES \
+    __CPROVER_ensures(xv_x509_live == __CPROVER_old(xv_x509_live) && xv_crl_live == __CPROVER_old(xv_crl_live) && xv_pkey_live == __CPROVER_old(xv_pkey_live) && xv_bio_live == __CPROVER_old(xv_bio_live)) \
+    __CPROVER_ensures(__CPROVER_return_value != NULL ==> (xv_ssl_used_cert && xv_ssl_used_key && xv_ssl_key_checked && (tc_data != NULL ==> xv_tc_added >= 1) && (crl_data != NULL ==> xv_crl_added >= 1)))
 #endif
 /* ---- cut points of ctx_store_get_ctx */
 #define XV_VAL 4      /* designated file names / values are NUL-terminated strings of 0..3 bytes in the jobs of this unit */
@@ -220,8 +230,8 @@ __CPROVER_ensures((__CPROVER_return_value == 0 && !follow) ==> xv_dg_updates == 
 __CPROVER_ensures(xv_dg_len <= XV_DG_MAX)
 ;
 
-/* hash_item: feeds the designation of ONE item to the digest; does not touch errno (stat's errno is restored);
- * nothing is fed for an unset item; fails only for a file that cannot be stat()ed */
+/* hash_item: feeds the designation of ONE item to the digest; does not touch errno (stat's errno is restored); fails only
+ * for a file that cannot be stat()ed.  WHAT is fed (injectivity in the four items) is decided by locks.hash_input_injective */
 static int hash_item(const struct item *item, EVP_MD_CTX *ctx, void *log_ref)
 __CPROVER_requires(__CPROVER_r_ok(item, sizeof(struct item)) && ITEM_TYPE_OK(item) && (item->type != item_type_none ==> __CPROVER_r_ok(item->data, 1)))
 __CPROVER_requires(__CPROVER_r_ok(ctx, 1) && xv_dg_len <= XV_DG_MAX)
@@ -229,9 +239,8 @@ __CPROVER_assigns(XV_DG_ASSIGNS, xv_errno)
 __CPROVER_ensures(__CPROVER_return_value == 0 || (__CPROVER_return_value == -1 && item->type == item_type_file))
 /* PO[C18] hash_item.errno_untouched */
 __CPROVER_ensures(xv_errno == __CPROVER_old(xv_errno))
-/* PO[C18] hash_item.value_item_feeds_its_bytes_in_one_update */
-__CPROVER_ensures(item->type == item_type_value ==> (__CPROVER_return_value == 0 && xv_dg_updates == __CPROVER_old(xv_dg_updates) + 1))
-__CPROVER_ensures(item->type == item_type_none ==> (xv_dg_updates == __CPROVER_old(xv_dg_updates) && xv_dg_len == __CPROVER_old(xv_dg_len)))
+/* PO[C18] hash_item.value_or_unset_item_cannot_fail */
+__CPROVER_ensures(item->type != item_type_file ==> __CPROVER_return_value == 0)
 __CPROVER_ensures(xv_dg_len <= XV_DG_MAX)
 ;
 
@@ -277,7 +286,7 @@ __CPROVER_ensures(__CPROVER_return_value == NULL ==> xv_errno == EPROTO)
 __CPROVER_ensures(__CPROVER_return_value == NULL ==> (xv_ctx_live == __CPROVER_old(xv_ctx_live) && (xv_ctx_dead == __CPROVER_old(xv_ctx_dead) || __CPROVER_is_fresh(xv_ctx_dead, 1))))
 __CPROVER_ensures(__CPROVER_return_value != NULL ==> (__CPROVER_is_fresh(__CPROVER_return_value, 1) && xv_ctx_live == __CPROVER_old(xv_ctx_live) + 1 && \
                   xv_ctxfree_calls == __CPROVER_old(xv_ctxfree_calls) && xv_ctx_dead == __CPROVER_old(xv_ctx_dead)))
-__CPROVER_ensures(XV_LIVE_OK(xv_ctxfree_calls))
+__CPROVER_ensures(xv_ctxfree_calls >= __CPROVER_old(xv_ctxfree_calls) && xv_ctxfree_calls <= __CPROVER_old(xv_ctxfree_calls) + 1)
 XV_LSC_ENSURES
 ;
 
@@ -343,6 +352,67 @@ __CPROVER_ensures(XV_GET_NEW(__CPROVER_return_value) ==> (xv_lsc_calls == __CPRO
 /* PO[C18] ctx_store_get_ctx.new_context_loaded_from_the_data_of_the_four_designated_items_in_order */
 __CPROVER_ensures(XV_GET_NEW(__CPROVER_return_value) ==> (xv_lsc_cert == xv_ldb_res[0] && xv_lsc_key == xv_ldb_res[1] && \
                   xv_lsc_tc == (tc->type != item_type_none ? xv_ldb_res[2] : NULL) && xv_lsc_crl == (crl->type != item_type_none ? xv_ldb_res[2 + XV_ISSET(tc)] : NULL)))
+;
+
+/* ---- item.c: how a credential is designated on a socket (C18 "by-file and by-value forms override each other", "exactly
+ * the material designated"; C08 the previous designation's memory is released).  Items are built by the harness
+ * (assignments); names/values are strings of 0..XV_VAL-1 bytes. */
+#define XV_ITEM_OK(i) (__CPROVER_rw_ok((i), sizeof(struct item)) && ITEM_TYPE_OK(i) && ((i)->type == item_type_none || __CPROVER_r_ok((i)->data, 1)))
+#define XV_STR_SAME(a, b) ((a)[0] == (b)[0] && ((a)[0] == 0 || ((a)[1] == (b)[1] && ((a)[1] == 0 || ((a)[2] == (b)[2] && ((a)[2] == 0 || (a)[3] == (b)[3]))))))
+
+int item_load(const struct item *item, char **data)
+__CPROVER_requires(XV_ITEM_OK(item) && __CPROVER_w_ok(data, sizeof(char *)) && XV_LIVE_OK(xv_heap_live) && XV_LIVE_OK(xv_ld_calls) && xv_ld_since_md >= 0 && xv_ld_since_md < 1000)
+__CPROVER_assigns(*data, xv_errno, xv_heap_live, xv_LD, xv_MD)
+/* PO[C18] item_load.unset_item_gives_no_data */
+__CPROVER_ensures(item->type == item_type_none ==> (__CPROVER_return_value == 0 && *data == NULL && xv_heap_live == __CPROVER_old(xv_heap_live)))
+/* PO[C18] item_load.value_item_gives_a_copy_of_the_value */
+__CPROVER_ensures(item->type == item_type_value ==> (__CPROVER_return_value == 0 && *data != NULL && *data != item->data && XV_STR_SAME(*data, item->data) && xv_heap_live == __CPROVER_old(xv_heap_live) + 1))
+/* PO[C18] item_load.file_item_gives_the_content_read_now_or_fails */
+__CPROVER_ensures(item->type == item_type_file ==> (xv_ld_calls == __CPROVER_old(xv_ld_calls) + 1 && \
+                  ((__CPROVER_return_value < 0 && xv_heap_live == __CPROVER_old(xv_heap_live) && (*data == NULL || *data == __CPROVER_old(*data))) || \
+                   (__CPROVER_return_value > 0 && xv_heap_live == __CPROVER_old(xv_heap_live) + 1 && *data != NULL))))
+;
+
+void item_deinit(struct item *item)
+__CPROVER_requires(item == NULL || (XV_ITEM_OK(item) && XV_LIVE_OK(xv_heap_live)))
+__CPROVER_assigns(xv_heap_live; item != NULL: *item)
+__CPROVER_frees(item->data)
+/* PO[C08,C18] item_deinit.item_unset_and_its_data_released */
+__CPROVER_ensures(item != NULL ==> (item->type == item_type_none && item->data == NULL && \
+                  xv_heap_live == __CPROVER_old(xv_heap_live) - (__CPROVER_old(item->type) != item_type_none && __CPROVER_old(item->data) != NULL ? 1 : 0)))
+;
+
+void item_set_value_n(struct item *item, const char *value, size_t len, bool sensitive)
+__CPROVER_requires(XV_ITEM_OK(item) && XV_LIVE_OK(xv_heap_live) && len < XV_VAL && __CPROVER_r_ok(value, len))
+__CPROVER_assigns(xv_heap_live, *item)
+__CPROVER_frees(item->data)
+/* PO[C18] item_set_value_n.by_value_replaces_whatever_was_designated */
+__CPROVER_ensures(item->type == item_type_value && item->sensitive == sensitive && item->data != NULL && item->data != value)
+/* PO[C18] item_set_value_n.value_is_the_first_len_bytes_up_to_a_nul */
+__CPROVER_ensures((len >= 1 && value[0] != 0) ? item->data[0] == value[0] : item->data[0] == 0)
+__CPROVER_ensures((len >= 2 && value[0] != 0 && value[1] != 0) ? item->data[1] == value[1] : (item->data[0] == 0 || item->data[1] == 0))
+/* PO[C08] item_set_value_n.previous_data_released */
+__CPROVER_ensures(xv_heap_live == __CPROVER_old(xv_heap_live) + 1 - (__CPROVER_old(item->type) != item_type_none && __CPROVER_old(item->data) != NULL ? 1 : 0))
+;
+
+void item_set_file(struct item *item, const char *filename, bool sensitive)
+__CPROVER_requires(XV_ITEM_OK(item) && XV_LIVE_OK(xv_heap_live) && __CPROVER_r_ok(filename, 1) && xv_ld_since_md >= 0 && xv_ld_since_md < 1000)
+__CPROVER_assigns(xv_heap_live, *item, xv_LD, xv_MD)
+__CPROVER_frees(item->data)
+/* PO[C18] item_set_file.by_file_replaces_whatever_was_designated */
+__CPROVER_ensures(item->type == item_type_file && item->sensitive == sensitive && item->data != NULL && item->data != filename && XV_STR_SAME(item->data, filename))
+/* PO[C08] item_set_file.previous_data_released */
+__CPROVER_ensures(xv_heap_live == __CPROVER_old(xv_heap_live) + 1 - (__CPROVER_old(item->type) != item_type_none && __CPROVER_old(item->data) != NULL ? 1 : 0))
+;
+
+void item_copy(const struct item *src_item, struct item *dst_item)
+__CPROVER_requires(XV_ITEM_OK(src_item) && XV_ITEM_OK(dst_item) && src_item != dst_item && XV_LIVE_OK(xv_heap_live) && xv_ld_since_md >= 0 && xv_ld_since_md < 1000)
+__CPROVER_assigns(xv_heap_live, *dst_item, xv_LD, xv_MD)
+__CPROVER_frees(dst_item->data)
+/* PO[C18] item_copy.destination_designates_what_the_source_designates */
+__CPROVER_ensures(dst_item->type == src_item->type && (src_item->type == item_type_none ? dst_item->data == NULL : (dst_item->data != NULL && dst_item->data != src_item->data && XV_STR_SAME(dst_item->data, src_item->data))))
+/* PO[C08] item_copy.previous_data_released */
+__CPROVER_ensures(xv_heap_live == __CPROVER_old(xv_heap_live) + (src_item->type != item_type_none ? 1 : 0) - (__CPROVER_old(dst_item->type) != item_type_none && __CPROVER_old(dst_item->data) != NULL ? 1 : 0))
 ;
 #endif /* XV_LOCKS_CS */
 
